@@ -347,6 +347,11 @@ where
                 Ok(())
             }
             DataToken::SequenceEnd => {
+                // whichever sequence ends here (a data set sequence
+                // or the fragments of encapsulated pixel data),
+                // what follows is not a pixel data fragment
+                self.last_de = None;
+
                 // only write if it's an unknown length sequence
                 if let Some(seq_start) = self.seq_tokens.pop() {
                     if seq_start.typ == SeqTokenType::Sequence && seq_start.len.is_undefined() {
